@@ -75,8 +75,9 @@ def regenerate(needed=None):
     broken = []
     tmp = tempfile.mkdtemp(prefix="gen", dir=BUILD)
     try:
-        for tool, files in (("go2lean", ["Counts.lean", "Sizes.lean"]), ("gofacts", ["Tables.lean", "Cmds.lean"]), ("gostr2lean", ["Strs.lean"])):
-            rc, o, e = run([os.path.join(BIN, tool), REPO, tmp])
+        for tool, files, extra in (("go2lean", ["Counts.lean", "Sizes.lean"], []), ("gofacts", ["Tables.lean", "Cmds.lean"], []),
+                                   ("gostr2lean", ["Strs.lean"], ["strs"]), ("gostr2lean", ["Objs.lean"], ["objs"])):
+            rc, o, e = run([os.path.join(BIN, tool), REPO, tmp] + extra)
             if rc != 0:
                 if needed is None or any(f in needed for f in files):
                     broken.append(f"{tool} cannot translate the current source: {e.strip().splitlines()[-1] if e.strip() else 'failed'}")
@@ -112,7 +113,7 @@ def build_driver_model():
     rc, out = lake_build(["gsmodel"])
     if rc != 0:
         msg = "the regenerated Gen/*.lean no longer compiles together with the model driver: " + first_error(out)
-        gen_fallback(["Counts.lean", "Sizes.lean", "Tables.lean", "Cmds.lean", "Strs.lean"])
+        gen_fallback(["Counts.lean", "Sizes.lean", "Tables.lean", "Cmds.lean", "Strs.lean", "Objs.lean"])
         rc2, out2 = lake_build(["gsmodel"])
         if rc2 != 0:
             raise SystemExit("gsmodel does not build even with baseline Gen:\n" + out2[-3000:])
@@ -381,7 +382,7 @@ def main():
     if not args.no_prove:
         rc_all, out_all = lake_build(["GitSizer"])
         if rc_all != 0 or broken:
-            gen_fallback(["Counts.lean", "Sizes.lean", "Tables.lean", "Cmds.lean", "Strs.lean"])
+            gen_fallback(["Counts.lean", "Sizes.lean", "Tables.lean", "Cmds.lean", "Strs.lean", "Objs.lean"])
             rc2, out2 = lake_build(["gsmodel"])
             if rc2 != 0:
                 raise SystemExit("gsmodel does not build with baseline Gen:\n" + out2[-3000:])
